@@ -213,7 +213,27 @@ class Models:
         raise Unsupported('expected a string, got %r' % (v,))
 
     # maps / sets
+    def _sym_int_key(self, k):
+        kk = deref_all(k)
+        return kk if (is_sym(kk) and z3.is_bv(kk) and not z3.is_bv_value(z3.simplify(kk))) else None
+
     def map_insert(self, m, k, v):
+        sk = self._sym_int_key(k)
+        if sk is not None or getattr(m, 'symkeys', False):
+            # integer keys that are symbolic: equality with every existing key is decided by branching (one path per alias pattern);
+            # look-ups by key on such a map are not modelled (Unsupported), insertion and ordered iteration are
+            m.symkeys = True
+            kk = deref_all(k)
+            for e in m.entries:
+                ek = deref_all(e[0])
+                if not (is_sym(ek) or isinstance(ek, int)) or not (is_sym(kk) or isinstance(kk, int)):
+                    raise Unsupported('map with symbolic keys of a non-integer type')
+                w = kk.size() if is_sym(kk) else ek.size() if is_sym(ek) else 64
+                if self.I.branch(bv(kk, w) == bv(ek, w)):
+                    old = e[1]; e[1] = v
+                    return SOME(old)
+            e = [k, v]; m.entries.append(e); m.index[('symkey', len(m.entries))] = e
+            return NONE()
         ck = canon(k)
         e = m.index.get(ck)
         if e is not None:
@@ -230,6 +250,18 @@ class Models:
 
     def ordered_entries(self, m):
         if getattr(m, 'ordered', False):       # BTreeMap / BTreeSet: key order, independent of any hash seed
+            if getattr(m, 'symkeys', False):
+                # insertion sort with the order of symbolic unsigned keys decided by branching
+                out = []
+                for e in m.entries:
+                    ek = deref_all(e[0]); pos = len(out)
+                    for i, o in enumerate(out):
+                        ok_ = deref_all(o[0])
+                        w = ek.size() if is_sym(ek) else ok_.size() if is_sym(ok_) else 64
+                        if self.I.branch(z3.ULT(bv(ek, w), bv(ok_, w))):
+                            pos = i; break
+                    out.insert(pos, e)
+                return out
             return sorted(m.entries, key=lambda e: canon(e[0]))
         if self.I.map_order is not None: return self.I.map_order(self.I, m)
         return list(m.entries)
@@ -1389,16 +1421,26 @@ def _into_iter(M, a, info):
     return It(_iterate(M, v))
 
 
-@model('HashMap::values', 'HashMap::values_mut', 'HashMap::into_values')
+@model('HashMap::values', 'HashMap::values_mut')
 def _map_values(M, a, info):
     m = _opt(a[0])
     return It(Ptr(e, 1) for e in M.ordered_entries(m))
 
 
-@model('HashMap::keys', 'HashMap::into_keys')
+@model('HashMap::keys')
 def _map_keys(M, a, info):
     m = _opt(a[0])
     return It(Ptr(e, 0) for e in M.ordered_entries(m))
+
+
+@model('HashMap::into_values')
+def _map_into_values(M, a, info):
+    return It(e[1] for e in M.ordered_entries(_opt(a[0])))      # owned values, not references
+
+
+@model('HashMap::into_keys')
+def _map_into_keys(M, a, info):
+    return It(e[0] for e in M.ordered_entries(_opt(a[0])))
 
 
 @model('Iterator::next')
@@ -1702,9 +1744,14 @@ def _set_new(M, a, info): return RSet()
 def _map_insert(M, a, info): return M.map_insert(a[0].get(), a[1], a[2])
 
 
+def _no_symkeys(m):
+    if getattr(m, 'symkeys', False): raise Unsupported('look-up by key on a map with symbolic integer keys')
+    return m
+
+
 @model('HashMap::get')
 def _map_get(M, a, info):
-    e = _opt(a[0]).index.get(canon(a[1]))
+    e = _no_symkeys(_opt(a[0])).index.get(canon(a[1]))
     return SOME(Ptr(e, 1)) if e is not None else NONE()
 
 
@@ -1713,12 +1760,12 @@ def _map_get_mut(M, a, info): return _map_get(M, a, info)
 
 
 @model('HashMap::contains_key')
-def _map_contains_key(M, a, info): return canon(a[1]) in _opt(a[0]).index
+def _map_contains_key(M, a, info): return canon(a[1]) in _no_symkeys(_opt(a[0])).index
 
 
 @model('HashMap::remove')
 def _map_remove(M, a, info):
-    m = _opt(a[0]); ck = canon(a[1])
+    m = _no_symkeys(_opt(a[0])); ck = canon(a[1])
     e = m.index.pop(ck, None)
     if e is None: return NONE()
     m.entries.remove(e)
@@ -1740,7 +1787,7 @@ def _map_entry(M, a, info): return Adt('Entry', None, None, [a[0], a[1]])
 @model('Entry::or_default')
 def _entry_or_default(M, a, info):
     mp, k = a[0].fields
-    m = mp.get()
+    m = _no_symkeys(mp.get())
     e = m.index.get(canon(k))
     if e is None:
         tys = split_top(type_generic(info[-1]))
@@ -1753,7 +1800,7 @@ def _entry_or_default(M, a, info):
 @model('Entry::or_insert')
 def _entry_or_insert(M, a, info):
     mp, k = a[0].fields
-    m = mp.get()
+    m = _no_symkeys(mp.get())
     e = m.index.get(canon(k))
     if e is None:
         M.map_insert(m, k, a[1]); e = m.index[canon(k)]
@@ -1763,7 +1810,7 @@ def _entry_or_insert(M, a, info):
 @model('Entry::or_insert_with')
 def _entry_or_insert_with(M, a, info):
     mp, k = a[0].fields
-    m = mp.get()
+    m = _no_symkeys(mp.get())
     e = m.index.get(canon(k))
     if e is None:
         M.map_insert(m, k, M.call_fn(a[1], [])); e = m.index[canon(k)]
@@ -2236,7 +2283,8 @@ def _bts_new(M, a, info):
     s = RSet(); s.ordered = True; return s
 
 
-for _n in ('insert', 'get', 'get_mut', 'contains_key', 'remove', 'len', 'is_empty', 'entry', 'iter', 'values', 'values_mut', 'keys', 'iter_mut', 'into_iter'):
+for _n in ('insert', 'get', 'get_mut', 'contains_key', 'remove', 'len', 'is_empty', 'entry', 'iter', 'values', 'values_mut', 'keys', 'iter_mut', 'into_iter',
+           'into_values', 'into_keys'):
     if 'HashMap::' + _n in TABLE: TABLE['BTreeMap::' + _n] = TABLE['HashMap::' + _n]
 for _n in ('insert', 'contains', 'remove', 'len', 'is_empty', 'iter'):
     if 'HashSet::' + _n in TABLE: TABLE['BTreeSet::' + _n] = TABLE['HashSet::' + _n]
